@@ -34,6 +34,15 @@ func aliasVariants(s string) []string {
 	return out
 }
 
+// wrapVariants: the string with white space or other junk before it, after it, or inside it.
+func wrapVariants(s string) []string {
+	var out []string
+	for _, j := range []string{" ", "\t", "\n", "\r\n", "\v", "\f", "\u00a0", "\u2003", "\ufeff", "\x00", "\x85"} {
+		out = append(out, j+s, s+j, j+s+j, s[:len(s)/2]+j+s[len(s)/2:])
+	}
+	return out
+}
+
 type aliasSweep struct {
 	Base   string `json:"base"`
 	Target string `json:"target,omitempty"`
@@ -49,6 +58,11 @@ func sweep(c aliasSweep, o *Obs, judge func(string, *Obs) error) error {
 	for _, v := range aliasVariants(c.Base) {
 		if err := judge(v, o); err != nil {
 			return fmt.Errorf("one character of %q replaced by an alias: %v", c.Base, err)
+		}
+	}
+	for _, v := range wrapVariants(c.Base) {
+		if err := judge(v, o); err != nil {
+			return fmt.Errorf("%q with white space or junk around or inside it: %v", c.Base, err)
 		}
 	}
 	o.NT()
